@@ -220,30 +220,164 @@ def seq_replay(ctx, behs, tr):
         ctx.cov["traces_validated_against_impl"] += len(behs)
 
 
+MS = {0: "L", 1: "S", 2: "R"}
+KEYDOC = {"k1": "A", "k2": "A", "k3": "B", "k4": "B", "k5": "C", "k6": "C", "k7": "D", "k8": "D"}
+LOCKED = ("GetValue", "UpsertToCache", "Remove", "FrmRem", "PeekGet", "MeEvict")
+
+
+def step_line(e, t, k, vid):
+    """one hook event -> one Step line (facts only; see specs/RevCache/Trace_RevCacheH.tla)"""
+    ev = e["ev"]
+    ln = {"a": "Step", "t": t, "ev": ev, "vid": vid, "n": e["n"]}
+    for f in ("items", "total"):
+        if f in e:
+            ln[f] = e[f]
+    if ev in LOCKED:
+        ln["len"], ln["maplen"] = e["len"], e["maplen"]
+    if "msnow" in e:
+        ln["msnow"] = MS[e["msnow"]]
+    if ev in ("GetValue", "UpsertToCache", "Remove", "PeekGet"):
+        ln["k"] = k
+    if ev == "GetValue":
+        ln["hit"] = e["hit"]
+    elif ev == "UpsertToCache":
+        ln["nrem"] = e["nrem"]
+        ln["oldms"] = MS[e["oldms"]] if e.get("old") else ""
+    elif ev == "UpDec":
+        ln["nn"] = e["dec"]
+    elif ev == "Load":
+        ln["hit"], ln["err"], ln["bytes"] = e["hit"], e["err"], e["bytes"]
+    elif ev in ("Cas", "PCas"):
+        ln["ok"] = e["ok"]
+    elif ev in ("Add", "PAdd", "SBytes"):
+        ln["bytes"] = e["bytes"]
+    elif ev == "PStore":
+        ln["stored"] = e["stored"]
+    elif ev == "FrmMark":
+        ln["ms"] = MS[e["ms"]]
+    elif ev == "FrmRem":
+        ln["removed"] = e["removed"]
+    elif ev == "Remove":
+        ln["found"] = e["found"]
+        ln["ms"], ln["bytes"] = (MS[e["ms"]], e["bytes"]) if e["found"] else ("", 0)
+    elif ev == "PeekGet":
+        ln["found"] = bool(e.get("vid"))
+    elif ev == "MeLock":
+        ln["need"] = e["need"]
+    elif ev == "MeEvict":
+        ln["found"] = e["found"]
+        ln["ms"], ln["bytes"] = (MS[e["ms"]], e["bytes"]) if e["found"] else ("", 0)
+    elif ev == "MeFin":
+        ln["freed"] = e["freed"]
+    return ln
+
+
+def convert_steps(rows):
+    """raw stream of the concurrent driver (harness lines + H3 hook events, globally ordered) ->
+    (step-level runs [one cache instance, hook events present], plain runs [snapshots only], stats)"""
+    rows = sorted(rows, key=lambda r: r["n"])
+    runs, cur = [], None
+    for r in rows:
+        if r["obj"] == "c16":
+            ln = r["line"]
+            if ln["a"] == "Reset":
+                cur = {"reset": ln, "items": [], "objs": set(), "gmap": {}}
+                runs.append(cur)
+            elif cur is not None:
+                if ln["a"] == "Begin":
+                    cur["gmap"][ln["g"]] = (ln["t"], ln["k"])
+                cur["items"].append(("H", ln, None))
+                if ln["a"] == "End":
+                    cur["gmap"] = {g: v for g, v in cur["gmap"].items() if v[0] != ln["t"]}
+        elif cur is not None and r["ev"] not in ("Call", "Ret"):
+            if r["obj"].startswith("*db.LRURevisionCache"):
+                cur["objs"].add(r["obj"])
+            cur["items"].append(("E", r, cur["gmap"].get(r.get("g"))))
+    step, plain, st = [], [], {"step_runs": 0, "plain_runs": 0, "events": 0, "by_event": {}}
+    for run in runs:
+        hooks = [x for x in run["items"] if x[0] == "E"]
+        if len(run["objs"]) != 1 or not hooks:
+            st["plain_runs"] += 1
+            plain.append(run["reset"])
+            plain += [ln for kind, ln, _ in run["items"] if kind == "H"]
+            continue
+        st["step_runs"] += 1
+        rs = dict(run["reset"])
+        rs["mode"] = "step"
+        rs["store"] = {k: run["reset"]["store"][d] for k, d in KEYDOC.items()}
+        step.append(rs)
+        vids, nv, vict = {}, 0, {}
+        for kind, x, who in run["items"]:
+            if kind == "H":
+                step.append(x)
+                continue
+            if who is None:
+                raise Inconclusive("hook event outside any harness call: %s" % x)
+            t, k = who
+            if x["ev"] == "CapEvict":
+                continue                        # its effect is part of the GetValue / UpsertToCache step that follows (same lock section)
+            if x["ev"] in ("UpsertToCache",) or (x["ev"] == "GetValue" and not x["hit"]):
+                nv += 1
+                vids[x["vid"]] = nv
+            step.append(step_line(x, t, k, vids.get(x.get("vid"), 0)))
+            st["events"] += 1
+            st["by_event"][x["ev"]] = st["by_event"].get(x["ev"], 0) + 1
+    if step:
+        ths = sorted({r["t"] for r in step if "t" in r})
+        step[0] = dict(step[0], allkeys=sorted(KEYDOC), threads=ths, pool=max(r["cap"] for r in step if r["a"] == "Reset") + len(ths) + 2)
+    return step, plain, st
+
+
 def conc(ctx, tr):
-    rows = read_ndjson(tr)
+    raw = read_ndjson(tr)
+    step, plain, st = convert_steps(raw)
+    rows = step + plain
     runs = sum(1 for r in rows if r["a"] == "Reset")
     snaps = [r for r in rows if r["a"] == "Quiesce"]
     ctx.cov["evaluations"] += runs
     ctx.cov["conc_runs"] = runs
+    ctx.cov["conc_step_level"] = st
     ctx.cov["conc_calls"] = sum(1 for r in rows if r["a"] == "End")
     ctx.cov["conc_quiescent_snapshots"] = len(snaps)
     ctx.cov["conc_nonempty_snapshots"] = sum(1 for r in snaps if r["S"]["lru"])
     ctx.cov["distinct_nontrivial"] += ctx.cov["conc_nonempty_snapshots"]
-    ctx.sample({"concurrent_run_config": _strip(rows[0]), "quiescent_snapshot": next((r["S"] for r in snaps if r["S"]["lru"]), None)})
-    vp = validate(ctx, SPEC, "Trace_RevCache", "Trace_RevCache_PS.cfg", tr, timeout=3600)      # strict: no deviation is reachable in this environment
+    ctx.sample({"concurrent_run_config": _strip(rows[0]), "first_steps": [r for r in step[:40] if r["a"] == "Step"][:6],
+                "quiescent_snapshot": next((r["S"] for r in snaps if r["S"]["lru"]), None)})
+    log("  concurrent driver: %d step-level runs (%d recorded steps), %d snapshot-level runs" % (st["step_runs"], st["events"], st["plain_runs"]))
+    ok = True
+    if plain:
+        ok &= _conc_pass_p(ctx, plain, "Trace_RevCache", "Trace_RevCache_PS.cfg", "Trace_RevCache_PS2.cfg", "conc")
+    if step:
+        ok &= _conc_pass_p(ctx, step, "Trace_RevCacheH", "Trace_RevCacheH_P.cfg", "Trace_RevCacheH_P2.cfg", "step")
+        if ok:
+            f = os.path.join(ctx.scratch, "c16-step.ndjson")
+            vc = validate(ctx, SPEC, "Trace_RevCacheH", "Trace_RevCacheH_C.cfg", f, timeout=3600)
+            if vc.inv or not vc.accepted:
+                ctx.cov["nonconformance"] += 1
+                idx, reset, part = _beh_at(step, (vc.line or 1) + 1)
+                ctx.notes.append("step-level pass C rejected at line %s (%s): run %s, line %s" % (
+                    vc.line, vc.inv, idx, step[vc.line - 1] if vc.line and vc.line <= len(step) else None))
+                ok = False
+    if ok:
+        ctx.cov["traces_validated_against_impl"] += runs
+
+
+def _conc_pass_p(ctx, rows, module, cfg, cfg2, label):
+    f = os.path.join(ctx.scratch, "c16-%s.ndjson" % label)
+    write_ndjson(f, rows)
+    vp = validate(ctx, SPEC, module, cfg, f, timeout=3600)      # strict: no deviation is reachable in this environment
     if vp.inv == "NoTornPeek":
         # timing dependent (Peek reads the value without its lock): reported under a fixed key, then the whole trace is
         # validated again without this one classification so that nothing else goes unjudged
         _violation(ctx, "concurrent driver: %s" % TORN_PEEK_WHAT, vp, rows, key=TORN_PEEK_KEY)
         ctx.cov["torn_peek_seen"] = True
-        vp = validate(ctx, SPEC, "Trace_RevCache", "Trace_RevCache_PS2.cfg", tr, timeout=3600)
+        vp = validate(ctx, SPEC, module, cfg2, f, timeout=3600)
     if vp.inv:
-        _violation(ctx, "concurrent driver (quiescent snapshot)", vp, rows)
-        return
+        _violation(ctx, "concurrent driver (%s)" % ("recorded step" if label == "step" else "quiescent snapshot"), vp, rows)
+        return False
     if not vp.accepted:
-        raise Inconclusive("pass P (concurrent) stopped at line %s of %s\n%s" % (vp.line, vp.total, vp.out[-1500:]))
-    ctx.cov["traces_validated_against_impl"] += runs
+        raise Inconclusive("pass P (concurrent, %s) stopped at line %s of %s\n%s" % (label, vp.line, vp.total, vp.out[-1500:]))
+    return True
 
 
 def candidate(ctx, key, tr, what):
